@@ -168,6 +168,9 @@ class _Unprintable:
     __str__ = __repr__
 
 
+_INITIAL_CALLS = [0]
+
+
 class InjectedAbort(BaseException):
     """a handler failure that is not an Exception subclass (like KeyboardInterrupt or a framework's abort signal)"""
 
@@ -223,6 +226,7 @@ class Harness:
                 h._actions(self, h.prog.get("init", []), None)
 
             def initial(self):
+                _INITIAL_CALLS[0] += 1          # (process-wide: whose initialize() ran this method is part of the observation)
                 h._actions(self, h.prog.get("initial", []), "@initial")
 
             def h(self, tag, job=None):
@@ -642,6 +646,16 @@ class Harness:
                 self.obs_toggle[key] += 1
                 src = key if self.obs_toggle[key] % 2 else key + "#2"
             self.producers[src].fire(self.etypes[src], payload)
+        elif spec.get("via") == "notify":
+            # the statistic is handed its documented default data event directly (no producer, no listen_to)
+            from pydsol.core.pubsub import Event, TimedEvent
+            from pydsol.core.interfaces import StatEvents
+            if kind == "wtally":
+                st.notify(Event(StatEvents.WEIGHT_DATA_EVENT, (a[2], a[3])))
+            elif kind == "persistent":
+                st.notify(TimedEvent(float(t), StatEvents.TIMESTAMP_DATA_EVENT, a[2]))
+            else:
+                st.notify(Event(StatEvents.DATA_EVENT, a[2]))
         elif kind == "wtally":
             st.register(a[2], a[3])
         elif kind in ("plaincounter", "plaintally"):
@@ -678,9 +692,12 @@ class Harness:
 
     def initialize(self):
         self.sim.__dict__["_verif_in_init"] = True
+        before = _INITIAL_CALLS[0]
         try:
             self.sim.initialize(self.model, self.replication)
         finally:
+            # how many initial methods (of ANY model in this process) this initialize() ran: its own, registered once
+            self.initial_methods_run = _INITIAL_CALLS[0] - before
             self.sim.__dict__["_verif_in_init"] = False
             w = self.worker()
             if w is not None and w not in self.workers:
